@@ -15,5 +15,6 @@ CONSTANTS
   ShortIO = FALSE
   DeadlineCheck = FALSE
   CloseBeforeSend = TRUE
+  ClearOnErr = TRUE
 INVARIANT NoViolation EnvOk
 CONSTRAINT Bound
